@@ -24,7 +24,7 @@ theorem digVal_underscore (base : Nat) : digVal base '_' = none := by
 
 theorem ws_not_digit {c : Char} (h : isWs c = true) (base : Nat) : digVal base c = none := by
   have hu : uniDec c.toNat = none := uniDec_ws _ (by simpa [isWs] using h)
-  simp only [isWs, wsCodes, List.contains_cons, List.contains_nil, Bool.or_false, Bool.or_eq_true, beq_iff_eq] at h
+  simp only [isWs, wsCodes, Generated.UnicodeDigits.intBlanks, List.contains_cons, List.contains_nil, Bool.or_false, Bool.or_eq_true, beq_iff_eq] at h
   have hh : Str.hexVal c = none := by
     rcases h with h | h | h | h | h | h | h | h | h | h | h | h | h | h | h | h | h | h | h | h | h | h | h | h | h <;>
       simp [Str.hexVal, h]
@@ -38,7 +38,7 @@ theorem goDigits_complete {base acc : Nat} {ds : Str} {n : Nat} (h : DigitsAcc b
     | nil => simp [goDigits]
     | cons c cs =>
       have hc : isWs c = true := by simp at hr; exact hr.1
-      have hne : c ≠ '_' := by intro h; subst h; simp [isWs, wsCodes] at hc
+      have hne : c ≠ '_' := by intro h; subst h; simp [isWs, wsCodes, Generated.UnicodeDigits.intBlanks] at hc
       have hd := ws_not_digit hc base
       simp only [List.nil_append]
       unfold goDigits
